@@ -4,7 +4,7 @@
     Only statements; proofs are in coq/proofs/. *)
 From Coq Require Import List NArith Bool.
 From TG.Model Require Import CoreAst Scope BangOps Indexer ScopeSpec.
-From TG.Proofs Require Import ScopeBalance ScopeFrame ScopeSim ScopeSimStmt.
+From TG.Proofs Require Import ScopeBalance ScopeFrame ScopeSim ScopeSimStmt ScopeSimRec PosLog.
 Import ListNotations.
 Open Scope N_scope.
 
@@ -154,3 +154,47 @@ Example C05_resolution_blocks_nonvacuous :
   length (fst (spec_stmts 0 env0 ex_blocks)) = 8%nat /\
   last (fst (spec_stmts 0 env0 ex_blocks)) (mkR 0 0 0, None) = (mkR 0 147 148, Some (mkR 0 7 8)).
 Proof. vm_compute. repeat split; reflexivity. Qed.
+
+(** From the use log to the queries.  `SymbolMap::find_symbol_at` on the position log: when all logged identifier
+    ranges that contain a position are one and the same range (tokens of a parse tree are disjoint or equal), the
+    symbol found there is the one of the NEWEST entry with that range; go-to-definition returns its declaration
+    range and find-references its reference list.  `add_reference` makes the reference that newest entry and
+    logs the use; and the declaration range of a symbol never changes afterwards (all programs). *)
+Theorem C05_goto_newest_entry : forall s l1 l2 r sym f p,
+    s_pos s = l1 ++ (r, sym) :: l2 ->
+    (forall e, In e l1 -> rng_has (fst e) f p = false) ->
+    rng_has r f p = true ->
+    (forall e, In e l2 -> rng_has (fst e) f p = true -> fst e = r) ->
+    find_symbol_at s f p = Some sym /\
+    goto_definition s f p = define_loc s sym /\
+    references s f p = Some (reference_locs s sym).
+Proof. exact goto_newest_entry. Qed.
+Check C05_goto_newest_entry : forall s l1 l2 r sym f p,
+    s_pos s = l1 ++ (r, sym) :: l2 ->
+    (forall e, In e l1 -> rng_has (fst e) f p = false) ->
+    rng_has r f p = true ->
+    (forall e, In e l2 -> rng_has (fst e) f p = true -> fst e = r) ->
+    find_symbol_at s f p = Some sym /\
+    goto_definition s f p = define_loc s sym /\
+    references s f p = Some (reference_locs s sym).
+Print Assumptions C05_goto_newest_entry.
+
+Theorem C05_reference_logged : forall s sym loc,
+    rng_empty loc = false ->
+    let s' := snd (add_reference sym loc s) in
+    s_pos s' = (loc, sym) :: s_pos s /\ s_refs s' = (sym, loc) :: s_refs s /\
+    s_uses s' = (loc, define_loc s sym) :: s_uses s.
+Proof. exact add_reference_logs. Qed.
+Check C05_reference_logged : forall s sym loc,
+    rng_empty loc = false ->
+    let s' := snd (add_reference sym loc s) in
+    s_pos s' = (loc, sym) :: s_pos s /\ s_refs s' = (sym, loc) :: s_refs s /\
+    s_uses s' = (loc, define_loc s sym) :: s_uses s.
+Print Assumptions C05_reference_logged.
+
+Theorem C05_declarations_stable : forall files n x s sym d,
+    define_loc s sym = Some d -> define_loc (snd (index_stmt files n x s)) sym = Some d.
+Proof. intros files n x s. exact (LocR_index_stmt files n x s). Qed.
+Check C05_declarations_stable : forall files n x s sym d,
+    define_loc s sym = Some d -> define_loc (snd (index_stmt files n x s)) sym = Some d.
+Print Assumptions C05_declarations_stable.
